@@ -48,6 +48,19 @@ func hx(p []byte) string {
 	return hex.EncodeToString(p)
 }
 
+// hxl prints byte strings of the decoder machines: hex, or for more than 4096 bytes
+// `~len:fnv1a64` (same as Driver.hexl in the model).
+func hxl(p []byte) string {
+	if len(p) <= 4096 {
+		return hx(p)
+	}
+	h := uint64(14695981039346656037)
+	for _, b := range p {
+		h = (h ^ uint64(b)) * 1099511628211
+	}
+	return fmt.Sprintf("~%d:%d", len(p), h)
+}
+
 // genBytes is the generated payload `@seed:n` (same formula as LzModel/Driver.lean).
 func genBytes(seed, n int) []byte {
 	p := make([]byte, n)
